@@ -52,3 +52,77 @@ for _n in WRITE_SET:
 
 from obligations.c18 import ics20_obligation
 obligation('C02', 'C02-Ics20Withdrawal authorisation and write-set of Ics20Withdrawal::execute')(ics20_obligation('C02'))
+
+
+# ----------------------------------------------------------------------------------------------------------------- oracle administration (sudo-gated)
+from mirsym import models as M
+
+
+def currency_pairs_obligation(run):
+    ex, W = A.engine()
+    run.bound(state='arbitrary symbolic chain state; the price-feed state is one opaque family (reads arbitrary, writes bump its version)', action='CurrencyPairsChange::Addition / Removal of 0..2 currency pairs, arbitrary signer')
+    run.assume('price-feed state_ext methods are not modelled cell by cell: what is decided is WHO may change that state and that nothing else is written')
+    n_ok = 0
+    a = ex.adts.lookup('CurrencyPairsChange')
+    for variant in ('Addition', 'Removal'):
+        for k in (0, 1, 2):
+            pairs = M.new_map('IndexSet<CurrencyPair>', [(Obj('astria_core::oracles::price_feed::types::v2::CurrencyPair', kind='opaque'), ()) for _ in range(k)])
+            for kk, (o, _) in enumerate(pairs.attrs['items']):
+                o.attrs['ident'] = z3.BitVec(f'pair{kk}', 256)
+            act = B.variant(ex, 'CurrencyPairsChange', variant, **{'0': pairs})
+            me = B.struct(ex, 'CheckedCurrencyPairsChange', action=act)
+            w0, res = A.run_action(run, ex, W, 'CurrencyPairsChange', me=me, allow_havoc=(r'^Arguments::|fmt::',), pc=[z3.BitVec('pair0', 256) != z3.BitVec('pair1', 256)] if k == 2 else None)
+            for i, (p, kind, r, me2) in enumerate(res):
+                lab = f'[{variant} of {k}, path {i}]'
+                if kind == 'panic':
+                    run.prove(f'no panic {lab}', p.pc, z3.BoolVal(False), detail=p.info); continue
+                run.sample({'variant': variant, 'pairs': k, 'path': i, 'result': kind, 'writes': [e[1] for e in p.log if e[0] == 'write']})
+                if kind != 'Ok':
+                    continue
+                n_ok += 1
+                signer = A.signer_of(ex, W, p, me2)
+                run.prove(f'a successful CurrencyPairsChange is signed by the current sudo address {lab}', p.pc, signer == w0['sudo'])
+                for label, claim in A.c02_claims(w0, p.world, signer):
+                    run.prove(f'{label} {lab}', p.pc, claim)
+                run.prove(f'CurrencyPairsChange writes only the price-feed state {lab}', p.pc, A.unchanged(w0, p.world, except_={'price_feed'}))
+    if n_ok == 0:
+        raise Inconclusive('vacuity: no successful execution path')
+    run.require_reached(*run.cur.reach)
+
+
+obligation('C02', 'C02-CurrencyPairsChange authorisation and write-set of CurrencyPairsChange::execute')(currency_pairs_obligation)
+
+
+def markets_change_obligation(run):
+    ex, W = A.engine()
+    run.bound(state='arbitrary symbolic chain state; the price-feed / market-map state is one opaque family', action='MarketsChange::Creation / Removal / Update of 0..1 markets, arbitrary signer; the stored market map has 0..1 markets')
+    run.assume('price-feed / market-map state_ext methods are not modelled cell by cell: what is decided is WHO may change that state and that nothing else is written')
+    n_ok = 0
+    for variant in ('Creation', 'Removal', 'Update'):
+        for k in (0, 1):
+            mk = []
+            for j in range(k):
+                t = Obj('astria_core::oracles::price_feed::market_map::v2::Market')
+                mk.append(t)
+            act = B.variant(ex, 'MarketsChange', variant, **{'0': M.new_vec('Vec<Market>', mk)})
+            me = B.struct(ex, 'CheckedMarketsChange', action=act)
+            w0, res = A.run_action(run, ex, W, 'MarketsChange', me=me, allow_havoc=(r'^Arguments::|fmt::',))
+            for i, (p, kind, r, me2) in enumerate(res):
+                lab = f'[{variant} of {k}, path {i}]'
+                if kind == 'panic':
+                    run.prove(f'no panic {lab}', p.pc, z3.BoolVal(False), detail=p.info); continue
+                run.sample({'variant': variant, 'markets': k, 'path': i, 'result': kind, 'writes': [e[1] for e in p.log if e[0] == 'write']})
+                if kind != 'Ok':
+                    continue
+                n_ok += 1
+                signer = A.signer_of(ex, W, p, me2)
+                run.prove(f'a successful MarketsChange is signed by the current sudo address {lab}', p.pc, signer == w0['sudo'])
+                for label, claim in A.c02_claims(w0, p.world, signer):
+                    run.prove(f'{label} {lab}', p.pc, claim)
+                run.prove(f'MarketsChange writes only the price-feed / market-map state {lab}', p.pc, A.unchanged(w0, p.world, except_={'price_feed'}))
+    if n_ok == 0:
+        raise Inconclusive('vacuity: no successful execution path')
+    run.require_reached(*run.cur.reach)
+
+
+obligation('C02', 'C02-MarketsChange authorisation and write-set of MarketsChange::execute')(markets_change_obligation)
